@@ -209,7 +209,7 @@ static int _decode
 				dec->_ctx = MPT_cobs_state(code, pos);
 				dec->curr = done + mlen + proc;
 				dec->data.len = mlen;
-				return 0;
+				return MPT_ERROR(MissingBuffer);
 			}
 			/* no remaining data on current part */
 			while (!dlen--) {
